@@ -105,8 +105,12 @@ def gaussian_copula_table(spec, shift=None):
             if j not in consts and margs[[k for k in range(d) if k not in consts].index(j)][0] == 'integer':
                 df[c] = df[c].astype(np.int64)
     if names == 'int':
-        # a non-default row index (a permutation of 0..n-1): labels must never be used as positions
-        df.index = pd.Index(np.argsort((np.arange(n) * 7919) % n, kind='stable'))
+        # a non-default row index: labels must never be used as positions (a permutation of 0..n-1 for even d) and rows must never
+        # be re-aligned to 0..n-1 (the same permutation shifted by 1000, i.e. no label inside 0..n-1, for odd d)
+        perm = np.argsort((np.arange(n) * 7919) % n, kind='stable')
+        df.index = pd.Index(perm if d % 2 == 0 else perm + 1000)
+    elif names == 'plain' and d % 2 == 0:
+        df.index = pd.Index([f'row{(i * 37) % n:05d}' for i in range(n)])       # string labels, scrambled order
     return df, {'R': R, 'marginals': margs, 'nonconst': [j for j in range(d) if j not in consts]}
 
 
